@@ -169,17 +169,30 @@ def plan(tier, seed):
         for p in G.family_big(rnd, 40):
             out.append((with_o2(p), [rcfg()], rfaults(p, 2)))
     else:
-        base = [G.cfg(), G.cfg(stop=True), G.cfg(dry=True), G.cfg(cont=True), G.cfg(show_skipped=False, capture=(False, True, False)),
-                G.cfg(retry=True)]
-        for p in G.family_scen(3):
-            p = with_o2(p)
-            nh = 2 * G.count_hooks_upper(G.flatten(p))
-            out.append((p, base, [[0, 0]] + [[k, 0] for k in range(1, nh + 1)]))
-        for p in G.family_tree(rnd, 4000):
+        # ~85k runs: (a) EVERY hook invocation as injection point on the exhaustive family scen(2) under the default
+        # configuration (also with autoretry: positions of the second attempt); (b) scen(3) under 4 configurations with
+        # faults spread over the run; (c) random trees with every single position; (d) big random programs
+        def spread(nh, n):
+            step = max(1, nh // n)
+            return [[k, 0] for k in range(1, nh + 1, step)][:n]
+        for p in G.family_scen(2):
             p = with_o2(p)
             nh = G.count_hooks_upper(G.flatten(p))
-            out.append((p, [rcfg() for _ in range(3)], [[0, 0]] + [[k, 0] for k in range(1, nh + 1)] + rfaults(p, 3)[1:]))
-        for p in G.family_big(rnd, 1500):
+            out.append((p, [G.cfg()], [[0, 0]] + [[k, 0] for k in range(1, nh + 1)]))
+            out.append((p, [G.cfg(retry=True)], [[0, 0]] + [[k, 0] for k in range(1, 2 * nh + 1, 2)]))
+        alt = 0
+        for p in G.family_scen(3):
+            p = with_o2(p)
+            nh = G.count_hooks_upper(G.flatten(p))
+            alt += 1
+            cfgs = [G.cfg(), G.cfg(stop=True) if alt % 2 else G.cfg(dry=True), G.cfg(cont=True) if alt % 3 else G.cfg(retry=True),
+                    G.cfg(show_skipped=False, capture=(alt % 2 == 0, alt % 3 == 0, alt % 5 == 0))]
+            out.append((p, cfgs, [[0, 0]] + spread(nh, 4)))
+        for p in G.family_tree(rnd, 1500):
+            p = with_o2(p)
+            nh = G.count_hooks_upper(G.flatten(p))
+            out.append((p, [rcfg(), rcfg()], [[0, 0]] + spread(nh, 8) + rfaults(p, 2)[1:]))
+        for p in G.family_big(rnd, 500):
             out.append((with_o2(p), [rcfg(), rcfg()], rfaults(p, 6)))
     return out
 
@@ -188,7 +201,7 @@ def shared(chk, part="core"):
     """Run (or load) the shared stage for this tree / tier / seed.  Returns a dict:
        n_runs, tlc: [{module,cfg,distinct,generated,wall,coverage}], verdicts: {clause: [ {key, ...} ]},
        divergences, samples, design_violations"""
-    key = tree_key({"tier": chk.tier, "seed": chk.seed, "part": part, "v": 5})
+    key = tree_key({"tier": chk.tier, "seed": chk.seed, "part": part, "v": 6})
     os.makedirs(CACHE, exist_ok=True)
     path = os.path.join(CACHE, "%s-%s.json.gz" % (part, key))
     lock = open(os.path.join(CACHE, "%s-%s.lock" % (part, chk.tier)), "w")
